@@ -280,8 +280,12 @@ def check_write(env, ref, op, before, outcome, res, hits, ctx):
                          f"{t!r}", cause=q.get("invalid") or "injected", what="truthy" if bool(t) else "empty-error",
                          rw="w")
             if q.get("injected") and q.get("ast") is not None:
-                # an injected error must not have been applied; the range may not change
-                pass
+                # refused by the controller part-way (e.g. one fragment): its own range may be partly written
+                try:
+                    e0 = ref.expect_write(q["ast"], v)
+                    allowed.setdefault(e0["key"], []).append(e0["range"])
+                except Exception:  # noqa
+                    pass
             continue
         if t is None:
             continue
@@ -667,15 +671,14 @@ def run_once(sc):
                 shape.append(("seq_advance",))
             elif kind == "read":
                 texts = [q["text"] for q in op["reqs"]]
-                mark_injected(op)
                 outcome, res = harness.call(sim, drv.read, *texts)
+                mark_injected(op, ctl.inject)
                 ctx["cs"] = drv.connection_size
                 ev = check_read(env, ref, op, outcome, res, hits, ctx)
                 for k, v in ev.items():
                     evals[k] += v
                 shape.append(("read", outcome, classes_of(env, op)))
             elif kind == "write":
-                mark_injected(op)
                 before = snapshot(ctl)
                 pairs = [(q["text"], v) for q, v in zip(op["reqs"], op["values"])]
                 if len(pairs) == 1 and op.get("flat"):
@@ -683,6 +686,7 @@ def run_once(sc):
                 else:
                     outcome, res = harness.call(sim, drv.write, *pairs)
                 ctx["cs"] = drv.connection_size
+                mark_injected(op, ctl.inject)
                 ev, expectations = check_write(env, ref, op, before, outcome, res, hits, ctx)
                 for k, v in ev.items():
                     evals[k] += v
@@ -718,11 +722,14 @@ def run_once(sc):
     return res, js_first
 
 
-def mark_injected(op):
-    """inject entries carry 'req' = index of the request they are aimed at"""
-    for inj in op.get("inject", []):
+def mark_injected(op, live):
+    """inject entries carry 'req' = index of the request they are aimed at; a request counts as refused by
+    the controller only if its injection really fired during the call"""
+    for q in op["reqs"]:
+        q.pop("injected", None)
+    for inj in live:
         i = inj.get("req")
-        if i is not None and 0 <= i < len(op["reqs"]):
+        if inj.get("fired") and i is not None and 0 <= i < len(op["reqs"]):
             op["reqs"][i]["injected"] = True
 
 
@@ -736,6 +743,8 @@ def classes_of(env, op):
 # =============================================================================
 # generation
 FW_CHOICES = (16, 17, 18, 19, 20, 21, 24, 28, 32, 33)
+# link addresses of odd and even string length (port segments pad odd lengths)
+HOP_IPS = ("10.11.12.13", "10.0.0.10", "192.168.1.20", "1.2.3.4", "10.0.0.2", "172.16.0.22", "192.168.100.200", "10.10.10.1")
 
 
 def gen_world(r, prop, tier):
@@ -762,7 +771,7 @@ def gen_world(r, prop, tier):
         feat["n_tags"] = r.choice((5, 12, 25, 40))
         feat["system_symbols"] = True
         feat["module_tags"] = r.random() < 0.7
-    layout = r.choice(("compact", "compact", "clx", "clx", "micro800"))
+    layout = r.choice(("compact", "compact", "clx", "clx", "micro800", "multihop"))
     fw = r.choice(FW_CHOICES)
     identity = {"rev_major": fw, "rev_minor": r.randrange(0, 100)}
     policy = {}
@@ -806,6 +815,17 @@ def gen_world(r, prop, tier):
                       f"10.0.0.1\\1\\{world['slot']}", f"10.0.0.1,bp,{world['slot']}"))
         if world["slot"] == 0 and r.random() < 0.5:
             path = "10.0.0.1"
+    elif layout == "multihop":
+        world["slots"] = r.choice((4, 7, 10))
+        world["enet_slot"] = r.randrange(world["slots"])
+        world["hop_slot"] = r.choice([x for x in range(world["slots"]) if x != world["enet_slot"]])
+        world["hop_ip"] = r.choice(HOP_IPS)
+        world["remote_slots"] = r.choice((4, 7, 13))
+        world["remote_enet_slot"] = r.randrange(world["remote_slots"])
+        world["slot"] = r.choice([x for x in range(world["remote_slots"]) if x != world["remote_enet_slot"]])
+        sep = r.choice(("/", "/", "\\", ","))
+        path = sep.join(("10.0.0.1", r.choice(("bp", "backplane", "1")), str(world["hop_slot"]), r.choice(("enet", "2")),
+                         world["hop_ip"], r.choice(("bp", "backplane")), str(world["slot"])))
     else:
         path = r.choice(("10.0.0.1", "10.0.0.1", "10.0.0.1/0", "10.0.0.1/bp/0"))
         if layout == "micro800":
@@ -955,10 +975,13 @@ def gen_rw_op(r, ref, oid, rw, prop, micro, with_prog, tier):
                 st = 5
             ext = () if r.random() < 0.5 else (r.choice((0x2105, 0x2107, 0x2104, r.randrange(65536))),)
             a = ref.resolve(reqs[i]["ast"])
-            same = [j for j, q in enumerate(reqs) if q.get("ast") is not None and ref.resolve(q["ast"])["key"] == a["key"]]
+            # no other request of the call (valid or planted-invalid) may name the same tag
+            same = [j for j, q in enumerate(reqs) if a["key"][1] in q["text"]]
             if len(same) == 1:
+                # sticky: every service on that tag fails; otherwise only the k-th one (e.g. one fragment of a transfer)
+                sticky = r.random() < 0.5
                 op["inject"] = [{"where": "tag_service", "match": {"key": [a["key"][0], a["key"][1]]}, "status": st,
-                                 "ext": list(ext), "req": i, "sticky": True}]
+                                 "ext": list(ext), "req": i, "sticky": sticky, "skip": 0 if sticky else r.choice((0, 0, 1, 2))}]
     return op
 
 
